@@ -12,7 +12,7 @@ VARIABLES s, done
 
 Chunkings(st) == {SortedSeq(c) : c \in CutsFor(st, MaxFullLen, MaxCuts, CoverDepth)}
 \* chunkings replayed (and model checked) under a declared non-UTF-8 charset
-AltChunkings(bytes) == {SortedSeq(c) : c \in CutSets(Len(bytes), AltFullLen, AltMaxCuts)}
+AltChunkings(st) == {SortedSeq(c) : c \in CutsFor(st, AltFullLen, AltMaxCuts, AltMaxCuts)}
 
 Init == s \in Family /\ done = FALSE
 Emit ==
@@ -25,7 +25,7 @@ Emit ==
                                rule |-> s.rule,
                                classes |-> CutClasses(s.mode, s.bytes),
                                chunkings |-> Chunkings(s),
-                               alt |-> AltChunkings(s.bytes),
+                               alt |-> AltChunkings(s),
                                nitems |-> Len(Expected(s.mode, s.bytes)),
                                lastopen |-> LastUnterminated(s.mode, s.bytes)]))
 Spec == Init /\ [][Emit]_<<s, done>>
